@@ -390,7 +390,7 @@ def run_session(workdir, scn, sess, timeout_guard=None):
         obs['ctl_error'] = controller.error
         obs['T'] = controller.T
         obs['at_end'] = controller.at_end
-        obs['soft_releases'] = controller.soft_releases
+        obs['soft_releases'] = controller.soft_releases + controller.lock_waits
         obs['build_runs'] = dict(script.build_runs)
         obs['chunks'] = controller.chunks if controller._orig_acquire is not None else None
     final = {}
@@ -460,11 +460,48 @@ class Controller(threading.Thread):
         self._orig_acquire = None
         self.chunks = []       # what acquire_work handed out, in order
         self.soft_releases = 0
+        self.lock_waits = 0
+        self.waiting = 0       # workers waiting for an executor lock
+        self._orig_rlock = None
         self.at_end = None
 
     # -- patch point
     def install(self):
         ctl = self
+        # locks created by the executor (build lock, work-list lock) tell the controller when a worker waits for
+        # one of them: such a worker is as good as blocked (it waits for a worker that is blocked in a process)
+        self._orig_rlock = getattr(rb_exec, 'RLock', None)
+        if self._orig_rlock is not None:
+            real = threading.RLock
+
+            class WatchedRLock(object):
+                def __init__(self):
+                    self._l = real()
+
+                def acquire(self, blocking=True, timeout=-1):
+                    if self._l.acquire(False):
+                        return True
+                    if not blocking:
+                        return False
+                    with ctl.cv:
+                        ctl.waiting += 1
+                        ctl.cv.notify_all()
+                    try:
+                        return self._l.acquire(True, timeout)
+                    finally:
+                        with ctl.cv:
+                            ctl.waiting -= 1
+
+                def release(self):
+                    self._l.release()
+
+                def __enter__(self):
+                    self.acquire()
+                    return self
+
+                def __exit__(self, *a):
+                    self.release()
+            rb_exec.RLock = WatchedRLock
         base = getattr(rb_exec, 'BenchmarkThread', None)
         if base is None:
             raise lib.InfraError('patch point rebench.executor.BenchmarkThread is gone')
@@ -510,6 +547,8 @@ class Controller(threading.Thread):
             rb_exec.BenchmarkThread = self._orig_cls
         if getattr(self, '_orig_acquire', None) is not None:
             rb_exec.ParallelScheduler.acquire_work = self._orig_acquire
+        if self._orig_rlock is not None:
+            rb_exec.RLock = self._orig_rlock
 
     # -- called from the scripted process (subprocess thread of a worker)
     def block(self, run, inv=None):
@@ -529,10 +568,10 @@ class Controller(threading.Thread):
 
     def _quiescent(self):
         return (self.T is not None and self.started >= self.T
-                and self.started - self.exited == len(self.blocked))
+                and self.started - self.exited == len(self.blocked) + self.waiting)
 
     def _state(self):
-        return (self.T, self.started, self.exited, tuple(sorted(self.blocked)), len(self.steps))
+        return (self.T, self.started, self.exited, tuple(sorted(self.blocked)), len(self.steps), self.waiting)
 
     def run(self):
         deadline = time.time() + 90
@@ -548,6 +587,8 @@ class Controller(threading.Thread):
                         and time.time() - since > 0.4)
                 if soft and not self._quiescent():
                     self.soft_releases += 1
+                if self._quiescent() and self.waiting and self.blocked:
+                    self.lock_waits += 1
                 if (self._quiescent() or soft) and self.blocked:
                     runs = sorted(self.blocked)
                     c = self.schedule[self._pos] if self._pos < len(self.schedule) else 0
